@@ -6,7 +6,8 @@ mako/codegen.py says *now*, as Lean constants:
 * `staleCmp`           - the comparison `os.stat(path)[ST_MTIME] <op> filemtime` of Template._compile_from_file
 * `missingCheck`       - `not os.path.exists(path) or ...` is present
 * `recordsFilenameVerbatim` - codegen records the template file name exactly as passed (`self.filename = filename`)
-* `fileRecheck`        - the re-check after loading also fires on `module._template_filename != filename`
+* `fileRecheck`        - the re-check after loading also fires when the recorded template file name differs from `filename`
+* `fileCmpNormalised`  - … compared as `os.path.normpath(module._template_filename) != os.path.normpath(filename)`
 * `magicRecheck`       - the `module._magic_number != codegen.MAGIC_NUMBER` re-check after loading is present
 * `writerOps`          - the sequence of file-system primitives of the non-hook branch of _compile_module_file
                          (mkstemp -> write -> close -> rename) read from its AST; the model's writer IS this list
@@ -168,6 +169,7 @@ def staleness(repo):
     #   module._magic_number != codegen.MAGIC_NUMBER [or module._template_filename != filename]
     recheck = False
     file_recheck = False
+    file_norm = []
 
     def disjunct(t):
         if isinstance(t, ast.Compare) and len(t.ops) == 1 and isinstance(t.ops[0], ast.NotEq):
@@ -175,6 +177,13 @@ def staleness(repo):
             if names == {"module._magic_number", "codegen.MAGIC_NUMBER"}:
                 return "magic"
             if names == {"module._template_filename", "filename"}:
+                file_norm.append(False)
+                return "file"
+            # os.path.normpath(module._template_filename) != os.path.normpath(filename)
+            l, r = t.left, t.comparators[0]
+            if call_name(l) == "os.path.normpath" and call_name(r) == "os.path.normpath" and len(l.args) == 1 and len(r.args) == 1 \
+                    and {dotted(l.args[0]), dotted(r.args[0])} == {"module._template_filename", "filename"}:
+                file_norm.append(True)
                 return "file"
         return None
 
@@ -190,7 +199,7 @@ def staleness(repo):
         if writes(n) and module_rebound(n):
             recheck = recheck or "magic" in kinds
             file_recheck = file_recheck or "file" in kinds
-    return CMP[type(cmp_.ops[0])], missing, recheck, file_recheck, src_whole
+    return CMP[type(cmp_.ops[0])], missing, recheck, file_recheck, src_whole, bool(file_norm) and all(file_norm)
 
 
 # ----------------------------------------------------------------------------- _compile_module_file
@@ -370,7 +379,7 @@ def gen(repo):
     if verbatim is None:
         raise RegenError("codegen._CompileContext.__init__: no assignment to self.filename")
     tries = verify_dir_tries(repo)
-    cmp_, missing, recheck, file_recheck, whole = staleness(repo)
+    cmp_, missing, recheck, file_recheck, whole, file_norm = staleness(repo)
     if '"_template_filename = %a" % self.compiler.filename' not in cg and '"_template_filename = %r" % self.compiler.filename' not in cg:
         raise RegenError("codegen: `_template_filename` is no longer emitted from compiler.filename")
     ops, loops, tmp_in_dir, hook_ok, close_on_raise, drops_bytecode, drops_bytecode_hook = writer(repo)
@@ -391,6 +400,8 @@ def gen(repo):
                "def magicRecheck : Bool := %s\n" % lean_bool(recheck))
     out.append("/-- the re-check also rewrites when `module._template_filename != filename` (generated from another file) -/\n"
                "def fileRecheck : Bool := %s\n" % lean_bool(file_recheck))
+    out.append("/-- … and that comparison is between the `os.path.normpath` of both names -/\n"
+               "def fileCmpNormalised : Bool := %s\n" % lean_bool(file_norm))
     out.append("/-- `_CompileContext` keeps the template file name it is given unchanged; it is what `_template_filename` records -/\n"
                "def recordsFilenameVerbatim : Bool := %s\n" % lean_bool(verbatim))
     out.append("/-- the default branch of `_compile_module_file`, primitive by primitive -/\n"
